@@ -2,6 +2,7 @@ package harness
 
 import (
 	"fmt"
+	"sort"
 
 	tally "github.com/uber-go/tally/v4"
 )
@@ -146,32 +147,62 @@ func genC05(g *Gen, tier string) *Program {
 		}
 		p.Tasks = append(p.Tasks, ops)
 	}
-	if g.Bool(12) {
-		// pairs of different identities whose documented keys coincide because a
-		// component contains one of the key format's delimiter characters
+	if g.Bool(15) {
+		// sets of different identities whose documented keys coincide because a
+		// component contains one of the key format's delimiter characters; built
+		// by re-parsing one key string at different delimiter positions
 		type der struct {
 			sub  string
 			tags map[string]string
 		}
-		pairs := [][2]der{
-			{{tags: map[string]string{"a": "1,b=2"}}, {tags: map[string]string{"a": "1", "b": "2"}}},
-			{{tags: map[string]string{"a=b": "c"}}, {tags: map[string]string{"a": "b=c"}}},
-			{{sub: "x+a=1"}, {sub: "x", tags: map[string]string{"a": "1+"}}},
+		k1, v1 := pick(g, "a", "k", "zone"), pick(g, "1", "x", "")
+		k2, v2 := pick(g, "b", "m", "zz"), pick(g, "2", "y")
+		pfx := pick(g, "svc", "x", "")
+		cands := []der{
+			{sub: pfx, tags: map[string]string{k1: v1, k2: v2}},
+			{sub: pfx, tags: map[string]string{k1: v1 + "," + k2 + "=" + v2}}, // ',' and '=' inside a value
+			{sub: pfx, tags: map[string]string{k1 + "=" + v1 + "," + k2: v2}}, // inside a key
+			{sub: "", tags: map[string]string{pfx + "+" + k1: v1, k2: v2}},    // prefix splitter inside a key
+			{sub: pfx + "+" + k1 + "=" + v1 + "," + k2 + "=" + v2, tags: nil}, // everything inside the prefix
+			{sub: pfx, tags: map[string]string{k1: v1}},                       // base for the next one
+			{sub: pfx + "+" + k1 + "=" + v1, tags: nil},                       // pair inside the prefix ("p+k=v+")
+			{sub: "", tags: map[string]string{pfx + "+" + k1: v1}},
+			{sub: pfx, tags: map[string]string{k1 + "=": v1}},
+			{sub: pfx, tags: map[string]string{k1: "=" + v1}},
 		}
-		pr := pairs[g.Intn(len(pairs))]
-		for i, d := range pr {
-			var ops []Op
-			cur := 0
-			if d.sub != "" {
-				ops = append(ops, Op{K: "sub", S: 0, D: 1, Name: d.sub})
-				cur = 1
+		// keep groups whose documented key coincides while the identity differs
+		byDoc := map[string][]der{}
+		for _, d := range cands {
+			doc := documentedKey(d.sub, d.tags)
+			byDoc[doc] = append(byDoc[doc], d)
+		}
+		docs := make([]string, 0, len(byDoc))
+		for doc := range byDoc {
+			docs = append(docs, doc)
+		}
+		sort.Strings(docs) // the generator must not depend on map iteration order
+		for _, doc := range docs {
+			group := byDoc[doc]
+			if len(group) < 2 {
+				continue
 			}
-			if d.tags != nil {
-				ops = append(ops, Op{K: "tag", S: cur, D: 2, Tags: d.tags})
-				cur = 2
+			for i, d := range group {
+				var ops []Op
+				cur := 0
+				if d.sub != "" {
+					ops = append(ops, Op{K: "sub", S: 0, D: 1, Name: d.sub})
+					cur = 1
+				}
+				if d.tags != nil {
+					ops = append(ops, Op{K: "tag", S: cur, D: 2, Tags: d.tags})
+					cur = 2
+				}
+				ops = append(ops, Op{K: "counter", S: cur, M: 1, Name: "c"}, Op{K: "inc", M: 1, I: int64(100 + i)})
+				p.Tasks = append(p.Tasks, ops)
+				if len(p.Tasks) >= 6 {
+					break
+				}
 			}
-			ops = append(ops, Op{K: "counter", S: cur, M: 1, Name: "c"}, Op{K: "inc", M: 1, I: int64(100 + i)})
-			p.Tasks = append(p.Tasks, ops)
 		}
 	}
 	settleEpilogue(g, p)
